@@ -51,11 +51,8 @@ func negotiate(c *core.Ctx) {
 		return
 	}
 	sent, accept := sig.Params().At(1), sig.Params().At(2)
-	// result variables (named results)
-	if fd.Type.Results == nil || len(fd.Type.Results.List) == 0 || len(fd.Type.Results.List[0].Names) == 0 {
-		c.Undecided("named-results", fd.Pos(), "results are not named")
-		return
-	}
+	// result variables (named results); without them the values returned are traced per exit below
+	named := !(fd.Type.Results == nil || len(fd.Type.Results.List) == 0 || len(fd.Type.Results.List[0].Names) == 0)
 	reqR, respR := sig.Results().At(0), sig.Results().At(1)
 	unimpl, _ := constIntOf(p, "CodeUnimplemented")
 	containsOf := func(conj []astx.Cond, arg types.Object, want bool) bool {
@@ -131,6 +128,14 @@ func negotiate(c *core.Ctx) {
 			}
 		}
 		return "", false
+	}
+	if !named {
+		negotiateByReturns(c, p, info, fd, sent, accept, acceptElem, unimpl)
+		for call, problem := range tokenizers {
+			c.Check(problem == "", "accept-list/tokenizer", call.Pos(), "the client's list is split on commas and blanks alike%s", map[bool]string{true: "", false: " - " + problem}[problem == ""])
+			break
+		}
+		return
 	}
 	// assignments
 	nReq, nResp := 0, 0
@@ -815,40 +820,84 @@ func poolHygiene(c *core.Ctx) {
 			if !ok || !(strings.HasPrefix(op, "decompressors.") || strings.HasPrefix(op, "compressors.")) {
 				continue
 			}
-			c.Check(helpers[core.FuncName(fd)], "who-may-call/"+core.FuncName(fd)+"/"+op, call.Pos(), "sync.Pool %s is used in %s (only the four get/put helpers may touch the (de)compressor pools)", op, core.FuncName(fd))
+			owner := false
+			if rn := astx.RecvNamed(funcOf(info, fd)); rn != nil && rn.Obj() == cp.Obj() {
+				owner = true
+			}
+			c.Check(owner, "who-may-call/"+core.FuncName(fd)+"/"+op, call.Pos(), "sync.Pool %s is used in %s (only compressionPool's own methods may touch the (de)compressor pools)", op, core.FuncName(fd))
 		}
 	}
-	// get*: Reset on the object before every success return
-	for _, name := range []string{"getDecompressor", "getCompressor"} {
-		fd := fn(p, "compressionPool."+name)
-		if fd == nil {
-			c.Unresolved(name, "not found")
+	// wherever an object is taken out of a (de)compressor pool it is Reset onto the caller's
+	// reader/writer exactly once before it is used or handed out
+	getSites := 0
+	for _, fd := range p.AllFuncDecls(p.Connect) {
+		var getAssign *ast.AssignStmt
+		ast.Inspect(fd.Body, func(x ast.Node) bool {
+			as, ok := x.(*ast.AssignStmt)
+			if !ok || len(as.Rhs) != 1 {
+				return true
+			}
+			ta, ok := astx.Unparen(as.Rhs[0]).(*ast.TypeAssertExpr)
+			if !ok {
+				return true
+			}
+			if call, ok := astx.Unparen(ta.X).(*ast.CallExpr); ok {
+				if op, isOp := isPoolOp(call); isOp && strings.HasSuffix(op, ".Get") && (strings.HasPrefix(op, "decompressors.") || strings.HasPrefix(op, "compressors.")) {
+					getAssign = as
+				}
+			}
+			return true
+		})
+		if getAssign == nil {
 			continue
+		}
+		getSites++
+		name := core.FuncName(fd)
+		obj := astx.ObjOf(info, getAssign.Lhs[0])
+		var okObj types.Object
+		if len(getAssign.Lhs) == 2 {
+			okObj = astx.ObjOf(info, getAssign.Lhs[1])
 		}
 		var probs []string
 		n := 0
 		astx.ForEachExit(info, fd.Body, func(s *astx.State, kind astx.ExitKind, ret *ast.ReturnStmt) {
-			if ret == nil || len(ret.Results) != 2 || astx.IsNil(info, ret.Results[0]) {
+			at := -1
+			for i, st := range s.Steps {
+				if st == ast.Node(getAssign) {
+					at = i
+				}
+			}
+			if at < 0 {
 				return
 			}
+			if okObj != nil && !s.TookBranch(func(e ast.Expr, pol bool) bool { return astx.ObjOf(info, e) == okObj && pol }) {
+				return // the object was of the wrong type: nothing was handed out
+			}
 			n++
-			obj := astx.ObjOf(info, ret.Results[0])
-			reset := 0
-			for _, st := range s.Steps {
+			// the first call on the object after the Get is Reset(<something of the caller>)
+			first := ""
+			resets := 0
+			for _, st := range s.Steps[at+1:] {
 				for _, call := range astx.Calls(st) {
-					if sel, ok := call.Fun.(*ast.SelectorExpr); ok && sel.Sel.Name == "Reset" && astx.ObjOf(info, sel.X) == obj && len(call.Args) == 1 {
-						if _, isParam := astx.ObjOf(info, call.Args[0]).(*types.Var); isParam {
-							reset++
-						}
+					sel, ok := call.Fun.(*ast.SelectorExpr)
+					if !ok || astx.ObjOf(info, sel.X) != obj {
+						continue
+					}
+					if first == "" {
+						first = sel.Sel.Name
+					}
+					if sel.Sel.Name == "Reset" && len(call.Args) == 1 {
+						resets++
 					}
 				}
 			}
-			if reset != 1 {
-				probs = append(probs, fmt.Sprintf("a success return hands out the pooled object after %d Reset(<new source/sink>) calls", reset))
+			if first != "Reset" {
+				probs = append(probs, fmt.Sprintf("a path uses the pooled object (first %q) before it was Reset onto the new source/sink", first))
 			}
 		})
-		c.Check(len(probs) == 0 && n > 0, "get/"+name, fd.Pos(), "%d success return(s), each after exactly one Reset onto the caller's reader/writer%s", n, joinProblems(probs))
+		c.Check(len(probs) == 0 && n > 0, "get/"+name, fd.Pos(), "%s: %d path(s) on which a pooled object is taken, each Reset onto the caller's reader/writer before use%s", name, n, joinProblems(probs))
 	}
+	c.Floor("functions that take objects out of the (de)compressor pools", getSites, 2)
 	// put*: Close; on error return without Put; Reset then Put
 	for _, name := range []string{"putDecompressor", "putCompressor"} {
 		fd := fn(p, "compressionPool."+name)
@@ -901,10 +950,16 @@ func poolHygiene(c *core.Ctx) {
 		var probs []string
 		n := 0
 		getCounter := newCallCounter(p, info, func(call *ast.CallExpr) bool {
+			if op, ok := isPoolOp(call); ok && strings.HasSuffix(op, ".Get") {
+				return true // taken directly (the get helper was folded into this function)
+			}
 			f := astx.CalleeFunc(info, call)
 			return f != nil && strings.HasPrefix(f.Name(), "get") && helpers["compressionPool."+f.Name()]
 		})
 		putCounter := newCallCounter(p, info, func(call *ast.CallExpr) bool {
+			if op, ok := isPoolOp(call); ok && strings.HasSuffix(op, ".Put") {
+				return true
+			}
 			f := astx.CalleeFunc(info, call)
 			return f != nil && strings.HasPrefix(f.Name(), "put") && helpers["compressionPool."+f.Name()]
 		})
@@ -915,6 +970,17 @@ func poolHygiene(c *core.Ctx) {
 			// the path returned right after a failed get (err != nil of the get)
 			for gi, st := range s.Steps {
 				if as, ok := st.(*ast.AssignStmt); ok && len(as.Rhs) == 1 && len(as.Lhs) == 2 {
+					// taken directly from the pool: the type assertion's ok plays the role of the get's error
+					if ta, isTA := astx.Unparen(as.Rhs[0]).(*ast.TypeAssertExpr); isTA {
+						if pc, isCall := astx.Unparen(ta.X).(*ast.CallExpr); isCall {
+							if op, isOp := isPoolOp(pc); isOp && strings.HasSuffix(op, ".Get") {
+								okObj := astx.ObjOf(info, as.Lhs[1])
+								if s.TookBranch(func(e ast.Expr, pol bool) bool { return astx.ObjOf(info, e) == okObj && !pol }) {
+									getFailed = true
+								}
+							}
+						}
+					}
 					if call, ok := as.Rhs[0].(*ast.CallExpr); ok {
 						if f := astx.CalleeFunc(info, call); f != nil && strings.HasPrefix(f.Name(), "get") {
 							errObj := astx.ObjOf(info, as.Lhs[1])
@@ -1520,4 +1586,157 @@ func tokenizerSplitsOn(p *core.Program, info *types.Info, pred ast.Expr) string 
 		}
 	}
 	return ""
+}
+
+// negotiateByReturns checks negotiateCompression exit by exit, tracing the returned values back
+// along the path (used when the results are not named variables): request = identity, or the sent
+// name under Contains(sent); response = the request value, or the first element of the client's
+// list for which Contains held; rejection only for a named, non-identity, unsupported request.
+func negotiateByReturns(c *core.Ctx, p *core.Program, info *types.Info, fd *ast.FuncDecl, sent, accept *types.Var,
+	acceptElem func(ast.Expr) (string, bool), unimpl int64) {
+	type val struct{ kind, key string }
+	resolve := func(s *astx.State, e ast.Expr) val {
+		for depth := 0; depth < 8; depth++ {
+			e = astx.Unparen(e)
+			if cst := astx.ConstObj(info, e); cst != nil {
+				if v, ok := astx.ConstString(info, e); ok && v == "identity" {
+					return val{"identity", ""}
+				}
+			}
+			if v, ok := astx.ConstString(info, e); ok && v == "" {
+				return val{"empty", ""}
+			}
+			if astx.ObjOf(info, e) == types.Object(sent) {
+				return val{"sent", ""}
+			}
+			if k, ok := acceptElem(e); ok {
+				return val{"elem", k}
+			}
+			obj := astx.ObjOf(info, e)
+			if obj == nil {
+				return val{"other", types.ExprString(e)}
+			}
+			rhs := s.LastAssigned(info, obj)
+			if rhs == nil {
+				return val{"other", types.ExprString(e)}
+			}
+			e = rhs
+		}
+		return val{"other", "?"}
+	}
+	containsFact := func(s *astx.State, match func(arg ast.Expr) bool, want bool) bool {
+		for _, f := range s.Facts {
+			if call, ok := astx.Unparen(f.Expr).(*ast.CallExpr); ok && isMethodNamed(info, call, "Contains") && len(call.Args) == 1 && match(call.Args[0]) && f.Pol == want {
+				return true
+			}
+		}
+		return false
+	}
+	var probs []string
+	okExits, errExits := 0, 0
+	wk := astx.NewWalker(info, fd.Body)
+	wk.MaxVisits = 3
+	wk.OnExit = func(s *astx.State, kind astx.ExitKind, ret *ast.ReturnStmt) {
+		if ret == nil || len(ret.Results) != 3 {
+			probs = append(probs, "exit without three explicit results")
+			return
+		}
+		at := p.Pos(ret.Pos())
+		if !astx.IsNil(info, ret.Results[2]) {
+			errExits++
+			call, ok := astx.Unparen(ret.Results[2]).(*ast.CallExpr)
+			good := false
+			if ok && len(call.Args) >= 1 {
+				if v, isC := astx.ConstInt(info, call.Args[0]); isC && v == unimpl {
+					for _, inner := range astx.Calls(call) {
+						if isMethodNamed(info, inner, "CommaSeparatedNames") {
+							good = true
+						}
+					}
+				}
+			}
+			if !good {
+				probs = append(probs, "the rejecting exit at "+at+" is not an unimplemented error listing CommaSeparatedNames()")
+			}
+			if !containsFact(s, func(a ast.Expr) bool { return astx.ObjOf(info, a) == types.Object(sent) }, false) {
+				probs = append(probs, "the error exit at "+at+" is not the unsupported-compression branch")
+			}
+			notEmpty, notIdentity := false, false
+			for _, f := range s.Facts {
+				l, op, r, ok := astx.CompareOp(f.Expr)
+				if !ok || astx.ObjOf(info, l) != types.Object(sent) {
+					continue
+				}
+				if v, isC := astx.ConstString(info, r); isC && (op == token.NEQ) == f.Pol {
+					switch v {
+					case "":
+						notEmpty = true
+					case "identity":
+						notIdentity = true
+					}
+				}
+			}
+			if !notEmpty || !notIdentity {
+				probs = append(probs, "a request is rejected at "+at+" without having established sent != \"\" and sent != identity")
+			}
+			return
+		}
+		okExits++
+		req, resp := resolve(s, ret.Results[0]), resolve(s, ret.Results[1])
+		switch req.kind {
+		case "identity":
+		case "sent":
+			if !containsFact(s, func(a ast.Expr) bool { return astx.ObjOf(info, a) == types.Object(sent) }, true) {
+				probs = append(probs, "the exit at "+at+" adopts the sent compression without Contains(sent)")
+			}
+		default:
+			probs = append(probs, "the exit at "+at+" returns a request compression from "+req.kind+" "+req.key)
+		}
+		switch resp.kind {
+		case "identity", "sent":
+			if resp.kind != req.kind {
+				probs = append(probs, "the exit at "+at+" returns response compression "+resp.kind+" but request compression "+req.kind)
+			}
+		case "elem":
+			if !containsFact(s, func(a ast.Expr) bool { return astx.CanonKey(info, a) == resp.key }, true) {
+				probs = append(probs, "the exit at "+at+" adopts an accepted name without Contains(name)")
+			}
+			// first match: no earlier element on this path was supported
+			if containsFactCount(info, s, resp.key) > 1 {
+				probs = append(probs, "the exit at "+at+" adopts a later entry although an earlier one was supported")
+			}
+		default:
+			probs = append(probs, "the exit at "+at+" returns a response compression from "+resp.kind+" "+resp.key)
+		}
+		if containsFact(s, func(a ast.Expr) bool { return astx.ObjOf(info, a) == types.Object(sent) }, false) {
+			probs = append(probs, "success exit at "+at+" although the sent compression is not supported")
+		}
+	}
+	wk.Walk()
+	if wk.Truncated {
+		c.Undecided("exits", fd.Pos(), "path enumeration truncated")
+		return
+	}
+	uniq := map[string]bool{}
+	var up []string
+	for _, pr := range probs {
+		if !uniq[pr] {
+			uniq[pr] = true
+			up = append(up, pr)
+		}
+	}
+	c.Check(len(up) == 0 && okExits > 0 && errExits > 0, "exits", fd.Pos(), "%d success exit(s), %d rejecting exit(s), each returned value traced to identity / sent under Contains / first supported accepted name%s", okExits, errExits, joinProblems(up))
+	_ = accept
+}
+
+// containsFactCount counts the Contains(<key>) == true branch outcomes on the path (two iterations
+// of the accept loop that both found support mean a later entry replaced an earlier one).
+func containsFactCount(info *types.Info, s *astx.State, key string) int {
+	n := 0
+	for _, f := range s.Taken {
+		if call, ok := astx.Unparen(f.Expr).(*ast.CallExpr); ok && isMethodNamed(info, call, "Contains") && len(call.Args) == 1 && astx.CanonKey(info, call.Args[0]) == key && f.Pol {
+			n++
+		}
+	}
+	return n
 }
